@@ -160,7 +160,8 @@ Other ==
                  /\ src' = TreeOfNodes(r.tree) /\ UNCHANGED <<fs, bk, gc, snap, partial, cnt, scen, saved, follow, drift, nchecked, nfaults>>
             \* (a backup with exclusions is the reference program run on the tree without the excluded
             \* entries: r.match lists the paths a pattern matches, a fact measured with the glob library)
-            [] r.ev = "call" /\ r.fn = "backup" /\ ~r.own_tree /\ follow = "" /\ r.owner ->
+            \* (r.follow is false in "big" scenarios, whose contents are logged as digests)
+            [] r.ev = "call" /\ r.fn = "backup" /\ ~r.own_tree /\ follow = "" /\ r.owner /\ r.follow ->
                  /\ bk' = [pc |-> "CheckLock", o |-> [H |-> r.H, M |-> r.M, S |-> r.S], band |-> -1, basis |-> <<>>, know |-> {},
                            pending |-> <<>>, finished |-> <<>>, buf |-> <<>>, queue |-> <<>>,
                            hunkNo |-> 0, todo |-> SortPaths(DOMAIN TreeSel(src, Root, SeqRange(r.match))), cur |-> <<>>, addrs |-> <<>>, buf2 |-> <<>>,
